@@ -521,6 +521,63 @@ def keyword_position_cases():
     return out
 
 
+_STATIC_PREAMBLE = ("struct Qq:\n  0 [+1]  UInt  n\n  1 [+n]  UInt:8[]  d\n  let v = n + 1\n  let c = 7\n  let b = n == 1\n"
+                    "struct Ss:\n  0 [+2]  UInt  m\n  let k = Ee.AA\nenum Ee:\n  AA = 1\n  BB = 2\n")
+_STATIC_REFS = ["Qq.v", "Qq.c", "Qq.b", "Qq.n", "Qq.d", "Qq.$size_in_bytes", "Qq.$max_size_in_bytes", "Qq.$min_size_in_bytes",
+                "Ss.$size_in_bytes", "Ss.k", "Ss.m", "Ee.AA", "Ee.CC", "Qq.nope", "Qq.v.w", "Ss.$size_in_bits"]
+_STATIC_FORMS = ["%s", "%s + 1", "%s == 3"]
+
+
+def static_reference_cases():
+    """Seed-independent: every kind of static reference (Type.member: constant / non-constant virtual field,
+    physical field, array, synthesized size fields of fixed and dynamic structures, enum values, missing
+    members) x 3 forms x every expression position."""
+    out = []
+    for ref in _STATIC_REFS:
+        for form in _STATIC_FORMS:
+            e = form % ref
+            for pos, tmpl in _KW_POSITIONS:
+                if pos == "enum-value":
+                    text = tmpl.replace("enum Ee:", "enum Ff:").replace("{E}", e) + _STATIC_PREAMBLE
+                else:
+                    text = tmpl.replace("{E}", e) + _STATIC_PREAMBLE
+                out.append(("static-reference:%s:%s" % (pos, form.replace("%s", "R")), text))
+    return out
+
+
+_ATTR_NAMES = ["byte_order", "requires", "fixed_size_in_bits", "maximum_bits", "is_signed", "is_integer", "addressable_unit_size",
+               "static_requirements", "text_output", "enum_case", "namespace", "expected_back_ends", "can_hold_any_value", "nope"]
+_ATTR_VALUES = ['"text"', "4", "true", "Ee.AA", '"kCamelCase"', '""', "x"]
+_ATTR_SCOPES = [
+    ("module", "{A}\nenum Ee:\n  AA = 1\nstruct Foo:\n  0 [+1]  UInt  x\n"),
+    ("struct", "enum Ee:\n  AA = 1\nstruct Foo:\n  {A}\n  0 [+1]  UInt  x\n"),
+    ("field", "enum Ee:\n  AA = 1\nstruct Foo:\n  0 [+1]  UInt  x\n    {A}\n"),
+    ("bits", "enum Ee:\n  AA = 1\nbits Foo:\n  {A}\n  0 [+1]  UInt  x\n"),
+    ("enum", "enum Ee:\n  {A}\n  AA = 1\nstruct Foo:\n  0 [+1]  UInt  x\n"),
+    ("enum-value", "enum Ee:\n  AA = 1\n    {A}\nstruct Foo:\n  0 [+1]  UInt  x\n"),
+    ("external", "external Xx:\n  {A}\nenum Ee:\n  AA = 1\nstruct Foo:\n  0 [+1]  UInt  x\n"),
+]
+
+
+def attribute_cases():
+    """Seed-independent: every attribute name x back-end qualifier (none, cpp, a declared foreign back end,
+    an undeclared one) x value kind x scope, plus the $default form at module and structure level."""
+    out = []
+    for nm in _ATTR_NAMES:
+        for be in ("", "(cpp) ", "(xyz) ", "(zzz) "):
+            for val in _ATTR_VALUES:
+                for scope, tmpl in _ATTR_SCOPES:
+                    forms = ["[%s%s: %s]" % (be, nm, val)]
+                    if scope in ("module", "struct") and val in ('"text"', "4", '"kCamelCase"'):
+                        forms.append("[$default %s%s: %s]" % (be, nm, val))
+                    for a in forms:
+                        text = tmpl.replace("{A}", a)
+                        if be == "(xyz) ":
+                            text = '[expected_back_ends: "cpp, xyz"]\n' + text
+                        out.append(("attribute:%s:%s%s" % (scope, be.strip(), "-default" if "$default" in a else ""), text))
+    return out
+
+
 def cross_file_cases():
     """Seed-independent: every diagnostic whose notes point into ANOTHER file (an imported module or the
     prelude).  The named file and the position must belong together."""
